@@ -69,10 +69,42 @@ def runPred (c : Case) : Res :=
                   s!" [exact orient={e.exactOr} insphere={e.exactIn}]", stats := stats }
   | _, _ => { status := "skip", detail := "non-finite", stats := ["pred.nonfinite"] }
 
+/-- C09: one duplicate probe judged by the exact linear-scan semantics of the model -/
+def runDup (c : Case) : Res :=
+  match (c.recsOf "lv").mapM parsePt, (c.recsOf "q").head?.bind parsePt with
+  | some live, some q =>
+    let outcome := c.ob1 "outcome"
+    -- exact squared distances in rationals; tolerance 1e-10
+    let tol2 : Q := ⟨1, 10 ^ 20⟩
+    let d2 (p : DPt) : Q := (p.zip q).foldl (fun acc (a, b) => let d := Q.ofDy a - Q.ofDy b; acc + d * d) (Q.ofInt 0)
+    let dists := live.map d2
+    let within := dists.any (fun d => Q.lt d tol2)
+    -- float evaluation of dist² near tol² is not second-guessed: skip a 1e-6 relative collar
+    let lo : Q := ⟨999999, 1000000 * 10 ^ 20⟩
+    let hi : Q := ⟨1000001, 1000000 * 10 ^ 20⟩
+    let collar := dists.any (fun d => Q.lt lo d && Q.lt d hi)
+    let reuse := c.arg "reuse_uuid" == "1"
+    let stats := [s!"dup.after.{c.arg "after"}", s!"dup.former.{c.arg "former"}", s!"dup.delta.{c.arg "delta"}",
+                  s!"dup.index.{c.arg "index"}", s!"dup.outcome.{outcome}"]
+    if outcome.startsWith "panic" then { status := "ORACLE", detail := s!"insert panicked: {outcome}", stats := stats }
+    else if collar then { status := "skip", stats := stats }
+    else if reuse then
+      if outcome == "DuplicateUuid" then { status := "ok", stats := stats }
+      else { status := "ORACLE", detail := s!"a vertex reusing a live UUID was answered with {outcome} instead of DuplicateUuid", stats := stats }
+    else if within then
+      if outcome == "DuplicateCoordinates" then { status := "ok", stats := stats }
+      else { status := "ORACLE", detail := s!"point within 1e-10 of a live vertex was answered with {outcome} instead of DuplicateCoordinates (after={c.arg "after"} index={c.arg "index"} delta={c.arg "delta"})", stats := stats }
+    else
+      if outcome == "DuplicateCoordinates" then
+        { status := "ORACLE", detail := s!"point farther than 1e-10 from every live vertex was refused as DuplicateCoordinates (former={c.arg "former"} after={c.arg "after"} index={c.arg "index"})", stats := stats }
+      else { status := "ok", stats := stats }
+  | _, _ => { status := "skip", detail := "non-finite" }
+
 def dispatch (c : Case) : Res :=
   match c.kind with
   | "pred" => runPred c
   | "cx" => runCx c
+  | "dup" => runDup c
   | k => { status := "DISAGREE", detail := s!"unknown case kind {k}" }
 
 partial def readAll (h : IO.FS.Stream) (acc : Array String) : IO (Array String) := do
